@@ -351,7 +351,7 @@ def check_wrappers(run, cx, cfg):
         ps = returning(cx.paths(fn, stop_trait_methods=[(NODE, 'process')]))
         ok = False
         if len(ps) == 1:
-            evs = [e for k, e in call_events(ps[0]) if e['kind'] == 'call' and not rp(e).endswith(('::deref', '::deref_mut'))]
+            evs = [e for k, e in call_events(ps[0]) if e['kind'] == 'call' and not rp(e).endswith(('::deref', '::deref_mut', '::as_mut', '::as_ref', '::borrow_mut', '::borrow'))]
             if len(evs) == 1:
                 e = evs[0]
                 if kind == 'trait':
